@@ -211,6 +211,8 @@ func HarnessC04Queries() {
 		{{e: &ExprOr{Exprs: []Expression{eq("a", "a0"), eq("a", "a1")}}, den: a0 | a1}, {e: &ExprOr{Exprs: []Expression{eq("a", "a0"), eq("a", "a1")}}, den: a0 | a1}},
 		{{e: &ExprNot{Expr: eq("a", "a0")}, den: ^a0 & mask}, {e: &ExprAnd{Exprs: []Expression{eq("a", "a0"), eq("b", "b0")}}, den: a0 & b0}},
 		{{e: &ExprAnd{Exprs: []Expression{eq("a", "a1"), &ExprNot{Expr: eq("b", "b0")}}}, den: a1 & (^b0 & mask)}, {e: &ExprNot{Expr: eq("b", "b0")}, den: ^b0 & mask}},
+		// a NOT over single-operand operators next to a plain read of the same stored value
+		{{e: &ExprNot{Expr: &ExprAnd{Exprs: []Expression{eq("a", "a0")}}}, den: ^a0 & mask}, {e: &ExprOr{Exprs: []Expression{eq("a", "a0")}}, den: a0}},
 	}
 	pr := pairs[verifChoice("pair", len(pairs))]
 	x1, x2 := pr[0], pr[1]
@@ -346,7 +348,11 @@ func HarnessC05Boundary() {
 	if verifTier() > 0 {
 		k += verifChoice("thousands", 2)
 	}
-	n := 1000*k - 1 + verifChoice("around-batch", 4) // 999..1002 (thorough: also 1999..2002)
+	c := verifChoice("around-batch", 5)
+	n := 1000*k - 1 + c // 999..1002 (thorough: also 1999..2002)
+	if c == 4 {
+		n = 2001 // 4002 (column,value) pairs: batching by pairs instead of rows crosses its bound here
+	}
 	for i := 0; i < n; i++ {
 		id, err := bw.AddRow(map[string]string{"t": verifTag4(i), "a": []string{"x", "y"}[i%2]})
 		if err != nil || id != uint32(i) {
